@@ -624,6 +624,9 @@ func (e *AnimEncoder) AddFrame(img image.Image, duration time.Duration) error {
 	// Fast path for pre-encoded bitstream data (no optimization possible).
 	if bf, ok := img.(*bitstreamFrame); ok {
 		e.frameCount++
+		// What a pre-encoded frame shows is unknown to the encoder: the next
+		// encoded frame must not be diffed against the canvas kept so far.
+		e.prevCanvas = nil
 		return e.muxer.AddFrame(bf.data, &mux.FrameOptions{
 			Duration: int(duration / time.Millisecond),
 		})
@@ -676,7 +679,7 @@ func (e *AnimEncoder) addOptimizedFrame(img image.Image, duration time.Duration)
 		currCanvas = full
 	}
 
-	isFirstFrame := e.frameCount == 0
+	isFirstFrame := e.frameCount == 0 || e.prevCanvas == nil
 	durMS := int(duration / time.Millisecond)
 
 	if isFirstFrame {
@@ -1213,13 +1216,20 @@ func (e *AnimEncoder) AddRawFrame(bitstreamData []byte, duration time.Duration, 
 	if e.closed {
 		return errors.New("animation: encoder is closed")
 	}
-	return e.muxer.AddFrame(bitstreamData, &mux.FrameOptions{
+	err := e.muxer.AddFrame(bitstreamData, &mux.FrameOptions{
 		Duration:    int(duration / time.Millisecond),
 		OffsetX:     offsetX,
 		OffsetY:     offsetY,
 		BlendMode:   mux.BlendMode(blend),
 		DisposeMode: mux.DisposeMode(dispose),
 	})
+	if err == nil {
+		// The frame counts (Close must not store the animation as a still
+		// image of an earlier frame), and the canvas it leaves is unknown.
+		e.frameCount++
+		e.prevCanvas = nil
+	}
+	return err
 }
 
 // SetICCProfile sets the ICC color profile for the output file.
